@@ -10,6 +10,12 @@ Decided clauses (shared with C12 R12.3):
   R15.2 zero trailing bits: sodium_base642bin can report success only on a path holding both
         "leftover bit count W <= 4" and "(accumulator & ((1 << W) - 1)) == 0" for the *same* W - all
         bits left over after the last full byte were compared with zero.
+  R15.4 sodium_hex2bin skips an ignored character only between complete digit pairs: wherever strchr(ignore, c)
+        accepted the character, the branch facts establish that the nibble toggle (the loop-carried value whose
+        next value is its complement) is 0, i.e. no high nibble is pending.
+  R15.3 bytes of the text are classified as values 0..255: in the decoders no sign-extended text byte reaches a
+        classification helper or arithmetic ("only alphabet characters" over the full 8-bit character set; a
+        sign-extended byte >= 0x80 makes the branch-free EQ() of the Base64 tables true for '+' and '/').
 NOT decided: the rest of the accepted language, round-trip equality, NUL termination and the
 encoded-length formula.
 """
@@ -98,6 +104,8 @@ def run(ctx, chk):
     chk.assumptions.append("loop-carried positions are havocked at loop heads; facts are those re-established in the iteration")
     decoder_rules(prog, chk)
     trailing_bits_rule(prog, chk)
+    signedness_rule(prog, chk)
+    hex_pairs_rule(prog, chk)
 
 
 def _strip(t):
@@ -148,3 +156,79 @@ def trailing_bits_rule(prog, chk):
                    [T.show(x, fn) for x in bounded][:3], [T.show(x, fn) for x in zeroed][:3]),
                path=None if ok else p, key="R15.2 sodium_base642bin trailing-bits")
     chk.floor("R15.2", "success exits of sodium_base642bin", n, 4)
+
+
+def signedness_rule(prog, chk):
+    """R15.3: text bytes are zero-extended before they are classified"""
+    from ..cone import Cones
+    n = 0
+    for name, itxt in (("sodium_hex2bin", 2), ("sodium_base642bin", 2), ("_sodium_base642bin_skip_padding", 0)):
+        fn = prog.need(name, rule="R15.3")
+        cn = Cones(fn, prog)
+        users = fn.users()
+        for i, ins in enumerate(fn.insts):
+            if ins["op"] not in ("sext", "zext") or ins.get("srcbits") != 8:
+                continue
+            src = ins["ops"][0]
+            if src[0] != "v" or fn.insts[src[1]]["op"] != "load":
+                continue
+            roots = cn.roots(fn.insts[src[1]]["ops"][0])
+            if ("a", itxt) not in roots:
+                continue
+            n += 1
+            if ins["op"] == "zext":
+                chk.ob("R15.3", fn, "text byte at %s is zero-extended" % fn.loc(i), True, key="R15.3 %s zext" % name)
+                continue
+            bad = []
+            for u in users.get(i, ()):
+                ui = fn.insts[u]
+                if ui["op"] == "call":
+                    cal = ui.get("callee") or ["", ""]
+                    if cal[0] == "g" and cal[1] in ("strchr",):
+                        continue            # strchr() converts its int argument back to char
+                    bad.append(u)
+                elif ui["op"] == "icmp" and ui["pred"] in ("eq", "ne") and any(o[0] == "i" and 0 <= o[1] < 128 for o in ui["ops"]):
+                    continue                # == '=' etc.: a negative value simply does not match
+                else:
+                    bad.append(u)
+            ok = not bad
+            chk.ob("R15.3", fn, "a sign-extended text byte is used only for equality with an ASCII constant or by strchr()", ok,
+                   loc=fn.loc(bad[0]) if bad else fn.loc(i), detail="" if ok else "the byte loaded at %s is sign-extended and then "
+                   "classified / computed with at %s: bytes 0x80..0xff arrive as negative numbers" % (fn.loc(src[1]), fn.loc(bad[0])),
+                   key="R15.3 %s sext" % name)
+    chk.floor("R15.3", "extensions of text bytes in the decoders", n, 3)
+
+
+def hex_pairs_rule(prog, chk):
+    fn = prog.need("sodium_hex2bin", rule="R15.4")
+    toggles = []
+    for i, ins in enumerate(fn.insts):
+        if ins["op"] != "phi" or not fn.blocks[ins["b"]].get("loophdr"):
+            continue
+        def uncast(o):
+            while o[0] == "v" and fn.insts[o[1]]["op"] in ("zext", "sext", "trunc"):
+                o = fn.insts[o[1]]["ops"][0]
+            return o
+        for v, _b in ins["inc"]:
+            v = uncast(v)
+            if v[0] == "v":
+                d = fn.insts[v[1]]
+                if d["op"] == "xor" and any(uncast(o) == ["v", i] for o in d["ops"]) and \
+                        any(o[0] == "i" and (o[1] + 1) & o[1] == 0 and o[1] for o in d["ops"]):
+                    toggles.append(i)
+    if len(toggles) != 1:
+        raise AnalysisBroken("R15.4: expected one nibble toggle (x = ~x) in sodium_hex2bin, found %d" % len(toggles))
+    P = toggles[0]
+    n = 0
+    for p in cm.paths(prog, fn):
+        for e in p.calls("strchr"):
+            if p.facts.zeroness(e.res) != "NZ":
+                continue            # the character was not in the ignore set on this path
+            n += 1
+            fb = p.facts_before(e.idx)
+            ok = any(t[0] == "icmp" and t[1] == "eq" and v and t[3][0] == "c" and t[3][1] == 0 and
+                     _strip(t[2])[0] == "havoc" and _strip(t[2])[1] == P for t, v in fb.items)
+            chk.ob("R15.4", fn, "an ignored character is skipped only when no high nibble is pending", ok, loc=fn.loc(e.iid),
+                   detail="" if ok else "strchr(ignore, c) is consulted without the fact `%s == 0`: a digit pair may be split by an ignored "
+                   "character" % fn.insts[P].get("name", "state"), path=None if ok else p, key="R15.4 sodium_hex2bin")
+    chk.floor("R15.4", "paths of sodium_hex2bin on which an ignored character is skipped", n, 1)
